@@ -92,8 +92,23 @@ pub fn generate(thorough: bool, seed: u64, em: &mut Emitter) {
             if marks.is_empty() {
                 case["path_triples"] = json!([]);
             }
+            let lifetimes = [0i64, 1, 60, 3600, -5, 86_400 * 365];
             if r.chance(1, 4) {
-                case["exp_in"] = json!(*r.pick(&[0i64, 1, 60, 3600, -5, 86_400 * 365]));
+                case["exp_in"] = json!(*r.pick(&lifetimes));
+            }
+            if calls > 1 && r.chance(1, 2) {
+                // the same issuer object is asked for another lifetime between two encode() calls
+                let seq: Vec<Value> = (0..calls).map(|i| if i > 0 && r.chance(2, 3) { json!(*r.pick(&lifetimes)) } else { Value::Null }).collect();
+                case["exp_in_seq"] = json!(seq);
+                case["nontrivial"] = json!(true);
+            }
+            if r.chance(1, 6) {
+                // the caller's claims already carry an (unmarked) exp member
+                if let Some(m) = case["claims"].as_object_mut() {
+                    if !marks.iter().any(|p| p.first() == Some(&Tok::Key("exp".to_string()))) {
+                        m.insert("exp".to_string(), json!(*r.pick(&[1i64, 1_700_000_000, 4_102_444_800])));
+                    }
+                }
             }
         }
         em.case("issue", case);
